@@ -9,6 +9,7 @@ import HG.Model.Viz
 import HG.Model.Build
 import HG.Model.Heap
 import HG.Model.IsoNested
+import HG.Model.DefHash
 /-! Line protocol driver: one JSON request per line on stdin, one JSON response per line on stdout.
 Evaluates the model's own definitions; malformed requests yield `{"bad": reason}` (never a default). -/
 open Lean HG Driver
@@ -68,6 +69,22 @@ partial def isoNode (j : Json) : P IsoN.Node := do
       | l => do pure (IsoN.CloneCfg.only (← list str l)))
     pure (.sub inner fwd items clone (← list str (fieldD sj "outs" (.arr #[]))))
   | _, _ => throw "bad iso node"
+
+/-- code objects of the definition-hash model: `{"bytes", "names", "varnames", "consts": [{"val": r} | {"code": CODE, "name": n}]}` -/
+partial def dhCode (j : Json) : P DefHash.Code := do
+  let consts ← list (fun c => do
+    match c.getObjVal? "val", c.getObjVal? "code" with
+    | .ok r, .error _ => do pure (DefHash.Const.val (← str r))
+    | .error _, .ok cj => do pure (DefHash.Const.code (← str (← field c "name")) (← dhCode cj))
+    | _, _ => throw "bad const (exactly one of val / code)") (← field j "consts")
+  pure (.mk (← str (← field j "bytes")) (← list str (← field j "names")) (← list str (← field j "varnames")) consts)
+
+/-- `{"source": null | text, "code": CODE, "defaults": text, "kwdefaults": text, "cells": [null | text, …]}` -/
+def dhFn (j : Json) : P DefHash.FnDef := do
+  let optStr (x : Json) : P (Option String) := match x with | .null => pure none | v => do pure (some (← str v))
+  pure { source := ← optStr (← field j "source"), code := ← dhCode (← field j "code"),
+         defaults := ← str (← field j "defaults"), kwdefaults := ← str (← field j "kwdefaults"),
+         cells := ← list optStr (← field j "cells") }
 
 def handle (j : Json) : P Json := do
   let op ← str (← field j "op")
@@ -412,6 +429,20 @@ def handle (j : Json) : P Json := do
       ("cells", .arr ((w.mem.cells.take cells.length).map encInts).toArray),
       ("dicts", .arr ((w.mem.dicts.take dicts.length).map fun d => encAL (fun r => n r) d).toArray),
       ("wf", .bool (IsoN.wfCheck specs w0.mem))])
+  | "defhash" =>
+    -- definition-hash input: current comparison, visible-field comparison, and the three earlier variants
+    let ps ← list (fun q => do
+      let a ← arr q
+      match a.toList with
+      | [x, y] => pure ((← dhFn x), (← dhFn y))
+      | _ => throw "bad defhash pair") (← field j "pairs")
+    let col (f : DefHash.FnDef → DefHash.FnDef → Bool) : Json := .arr (ps.map fun (x, y) => Json.bool (f x y)).toArray
+    pure (Json.mkObj [
+      ("same", col DefHash.sameHash),
+      ("sameVisible", col fun x y => decide (DefHash.visible x = DefHash.visible y)),
+      ("v1", col fun x y => DefHash.hashInputV1 x == DefHash.hashInputV1 y),
+      ("v2", col fun x y => DefHash.hashInputV2 x == DefHash.hashInputV2 y),
+      ("v3", col fun x y => DefHash.hashInputV3 x == DefHash.hashInputV3 y)])
   | "rename" =>
     -- rename bookkeeping: original names, optional constructor batch, successive call batches
     let orig ← list str (← field j "orig")
